@@ -433,3 +433,13 @@ _upd('C08',
      'in row 0, so the final adder returns at least n+m bits). All modes are modelled one-to-one and compared gate for gate (uuid pinned); '
      'the search checks values and widths on the real generators, incl. generate_mul with every MulMode.',
      'That the generators return at all on valid arguments (model fuel, fresh-label loop) is by correspondence; the theorems are about every run that returns.')
+_upd('C04',
+     'Theorems: the pattern primitives of the cone simulation (leaf patterns enumerate all leaf assignments; eval_pattern is the gate\'s Boolean '
+     'function bit by bit, n-ary gates included); through C06, any cone returned by exact synthesis agrees with the requested table on every '
+     'defined entry; and the splice loop, abstractly: ANY finite sequence of replace_subcircuit steps whose replacements agree with the cones '
+     'they replace leaves the circuit well formed with the same inputs, position by position, and the same output values on every assignment '
+     '(through the C19 theorem). The real minimize_subcircuits is run on random circuits (all bases, parameter settings, admissible cut '
+     'families incl. shuffled / sub-families, correlated cut leaves, n-ary cones) and compared with its argument on all assignments; every '
+     'splice it performs is recorded in-process, checked against the theorem\'s hypotheses and compared with the Lean model of replace_subcircuit.',
+     'PARTIAL: cut selection, don\'t-care extraction, the in-place merge of cone outputs with equal patterns and the size accounting are not '
+     'modelled (search oracle only). mockturtle and pysat are shims. One open known finding (dead logic).')
